@@ -45,11 +45,21 @@ fn main() {
             let reg = regress::cases(id, tier);
             let n_regress = reg.len();
             for rc in reg {
-                let ev = (rc.run)(true);
+                // on a thread with a large stack: some cases move big arrays around
+                let rc_name = rc.name.clone();
+                let run = rc.run;
+                let ev = std::thread::Builder::new().stack_size(512 << 20).spawn(move || run(true)).unwrap().join();
+                let ev = match ev {
+                    Ok(e) => e,
+                    Err(_) => {
+                        println!("INFRA: a regression case panicked inside the harness");
+                        std::process::exit(2);
+                    }
+                };
                 let msgs: Vec<String> =
                     ev.violations.iter().filter(|v| v.oracle.property() == id).map(|v| format!("{:?}: {}", v.oracle, v.msg)).collect();
                 if !msgs.is_empty() {
-                    regress_failure = Some((rc.name.clone(), driver::Failure { bytes: Vec::new(), show: ev.show, messages: msgs, trace: ev.trace }));
+                    regress_failure = Some((rc_name.clone(), driver::Failure { bytes: Vec::new(), show: ev.show, messages: msgs, trace: ev.trace }));
                     break;
                 }
             }
@@ -139,7 +149,11 @@ fn main() {
                     eprintln!("unknown regression case {}", name);
                     std::process::exit(2);
                 };
-                let ev = (rc.run)(true);
+                let run = rc.run;
+                let ev = std::thread::Builder::new().stack_size(512 << 20).spawn(move || run(true)).unwrap().join().unwrap_or_else(|_| {
+                    println!("INFRA: the regression case panicked inside the harness");
+                    std::process::exit(2)
+                });
                 println!("case: {}", ev.show);
                 for l in &ev.trace {
                     println!("{}", l);
